@@ -1,8 +1,6 @@
 package props
 
 import (
-	"unicode/utf8"
-	"unicode"
 	"bufio"
 	"encoding/json"
 	"fmt"
@@ -12,6 +10,8 @@ import (
 	"runtime/debug"
 	"strings"
 	"sync"
+	"unicode"
+	"unicode/utf8"
 
 	"verif/harness/mc"
 
